@@ -155,6 +155,9 @@ Arguments TConst {F}. Arguments TTraj {F}. Arguments TLeaf {F}. Arguments TSeq {
 Section Join.
   Variable F : Type.
   Variable N : Num F.
+  (* the trajectory's last control point has a length of its own (a tail) *)
+  Definition tail_positive (e : env F) : bool :=
+    match rev e with l :: _ => 0 <? pd l | [] => false end.
   Definition join_tempo (fa fb : bool) (ta : env F) (da : Z) (tb : env F) : res (env F) :=
     let trivial :=
       negb fa && negb fb &&
@@ -165,7 +168,7 @@ Section Join.
     if trivial then Ok ta
     else
       ta' <- (if da <? pdur F ta then env_cut_out F N ta 0 da
-              else if pdur F ta <? da then env_extend_until F N ta da
+              else if (pdur F ta <? da) || tail_positive ta then env_extend_until F N ta da
               else Ok ta) ;
       Ok (ta' ++ tb).
 End Join.
